@@ -590,7 +590,16 @@ def unit3b(prog, R):
                     names_ = [q['name'] for q in s_.rv.place.proj if q['k'] == 'field']
                     if names_[:1] == ['buf_pos']:
                         borrowed |= ((LINES | {'pos'}) if len(names_) == 1 else (set(names_[1:2]) & (LINES | {'pos'})))
-        hidden = (not ok) and bool(borrowed) and (valid[p] - shifted) <= borrowed and not other and not (shifted - valid[p]) and recomputed >= (LINES - valid[p]) and (start_ok or 'pos' in borrowed)
+        # ... and the same for the resumed search (line ends stored through `set_line_end(&mut self, line, ..)`)
+        borrowed_r = set()
+        for blk_ in resum.blocks:
+            for s_ in blk_.stmts:
+                if s_.k == 'assign' and s_.rv.k == 'ref' and s_.rv.j.get('mut') and s_.rv.place is not None:
+                    names_ = [q['name'] for q in s_.rv.place.proj if q['k'] == 'field']
+                    if names_[:1] == ['buf_pos']:
+                        borrowed_r |= (LINES if len(names_) == 1 else (set(names_[1:2]) & LINES))
+        hidden = (not ok) and bool(borrowed) and (valid[p] - shifted) <= borrowed and not other and not (shifted - valid[p]) and \
+            ((LINES - valid[p]) - recomputed) <= borrowed_r and (start_ok or 'pos' in borrowed)
         R.add('UNIT-3b', comp, 'stage:%s' % p, ok, site(comp, comp.span['lo']),
               'stopped in %s: valid %s; compaction shifts %s (record start := 0: %s); resumed search recomputes %s%s' % (
                   p, sorted(valid[p]), sorted(shifted), start_ok, sorted(recomputed),
